@@ -3,6 +3,7 @@
   label coordinate in the strand's frame.
 -/
 import Proofs.Fields
+import Proofs.Cmap
 namespace Coma.Proofs
 open Coma Coma.Spec
 
@@ -60,5 +61,29 @@ theorem labels_frame_monotone (m : OMap) (rev : Bool) (hm : Ascending m.position
   cases rev
   · simp at hp1 hp2 ⊢; omega
   · simp at hp1 hp2 ⊢; omega
+
+/-- the frame of a trimmed map: label numbers 1, 2, 3, … in file order; coordinate = distance from the
+    first label on '+', from the last label on '-' -/
+theorem trim_labels_frame (m : OMap) (p0 : Int) (ps : List Int) (hp : m.positions = p0 :: ps) (rev : Bool) (l : Lbl) :
+    l ∈ m.trim.labels rev ↔ ∃ k : Nat, ∃ p, m.positions[k]? = some p ∧ l.site = (k : Int) + 1 ∧
+      l.pos = (if rev then lastD p0 m.positions - p else p - p0) := by
+  obtain ⟨hpos, -, -, hlen, -, -⟩ := trim_spec m p0 ps hp
+  have hsh : m.trim.shift = 0 := by
+    unfold OMap.trim
+    rw [hp]
+  rw [(labels_spec m.trim rev).2 l, hpos, hlen, hsh]
+  constructor
+  · rintro ⟨k, q, hq, hs, hl⟩
+    rw [List.getElem?_map] at hq
+    cases hk : m.positions[k]? with
+    | none => rw [hk] at hq; simp at hq
+    | some p =>
+      rw [hk] at hq
+      simp at hq
+      refine ⟨k, p, hk, by omega, ?_⟩
+      cases rev <;> simp at hl ⊢ <;> omega
+  · rintro ⟨k, p, hk, hs, hl⟩
+    refine ⟨k, p - p0, by rw [List.getElem?_map, hk]; rfl, by omega, ?_⟩
+    cases rev <;> simp at hl ⊢ <;> omega
 
 end Coma.Proofs
